@@ -1,5 +1,6 @@
 import NTV.Proofs.Lemmas.InvProofs
 import NTV.Proofs.Lemmas.KronProofs
+import NTV.Proofs.Lemmas.ElemProofs
 /-! # C19 — property theorems (modular inverse, perfect power, Kronecker symbol, primes)
 Only property-level statements live here; helper lemmas are in `NTV.Proofs.Lemmas.*`. -/
 namespace NTV.C19
@@ -19,5 +20,47 @@ example : ∃ x, NTV.inv 3 7 = .ok x ∧ 0 ≤ x ∧ x < 7 := by
   obtain ⟨x, h, h0, h1, _⟩ := (inv_full 3 7 (by decide)).1 (by decide)
   exact ⟨x, h, h0, h1⟩
 example : NTV.inv 4 8 = .error 4 := (inv_full 4 8 (by decide)).2 (by decide)
+
+/-- the library k-th root is modelled by the floor root: r^k ≤ n < (r+1)^k for every n and k ≥ 1 -/
+theorem nthRoot_full (n k : Nat) (hk : 1 ≤ k) :
+    (NTV.Elem.nthRoot n k) ^ k ≤ n ∧ n < (NTV.Elem.nthRoot n k + 1) ^ k := NTV.Elem.nthRoot_spec n k hk
+
+/-- perfect-power detection, full: negative input panics, n ≤ 1 gives (n, 1), and for n ≥ 2 the result
+(b, k) has b^k = n with k the largest exponent for which n is a perfect power (k = 1 iff it is none) -/
+theorem perfectPower_full (n : Int) :
+    (n < 0 → NTV.Elem.perfectPower n = none) ∧
+    (0 ≤ n → n ≤ 1 → NTV.Elem.perfectPower n = some (n, 1)) ∧
+    (2 ≤ n → ∃ b k : Nat, NTV.Elem.perfectPower n = some ((b : Int), k) ∧ (b : Int) ^ k = n ∧ 1 ≤ k ∧
+        ∀ k', k < k' → ¬ ∃ r : Nat, (r : Int) ^ k' = n) := by
+  refine ⟨?_, ?_, ?_⟩
+  · intro h; simp [NTV.Elem.perfectPower, h]
+  · intro h0 h1
+    have : ¬ n < 0 := by omega
+    simp [NTV.Elem.perfectPower, this, h1]
+  · intro h2
+    have hn0 : ¬ n < 0 := by omega
+    have hn1 : ¬ n ≤ 1 := by omega
+    obtain ⟨N, rfl⟩ : ∃ N : Nat, n = (N : Int) := ⟨n.toNat, by omega⟩
+    have hN : 2 ≤ N := by omega
+    obtain ⟨s1, s2, s3⟩ := NTV.Elem.ppSearch_spec N (NTV.Elem.bits N)
+    refine ⟨(NTV.Elem.ppSearch N (NTV.Elem.bits N)).1, (NTV.Elem.ppSearch N (NTV.Elem.bits N)).2, ?_, ?_, s2, ?_⟩
+    · simp [NTV.Elem.perfectPower, hn0, hn1]
+    · exact_mod_cast s1
+    · intro k' hk' ⟨r, hr⟩
+      have hr' : r ^ k' = N := by exact_mod_cast hr
+      by_cases hle : k' ≤ NTV.Elem.bits N
+      · exact s3 k' hk' hle ⟨r, hr'⟩
+      · -- exponents above the bit length are impossible: r ≥ 2, so 2^k' ≤ N < 2^bits
+        have hk0 : k' ≠ 0 := by omega
+        have hr2 : 2 ≤ r := by
+          rcases r with _ | _ | r
+          · rw [zero_pow hk0] at hr'; omega
+          · simp at hr'; omega
+          · omega
+        have h1 : 2 ^ k' ≤ N := by rw [← hr']; exact Nat.pow_le_pow_left hr2 k'
+        have h2 : N < 2 ^ (N.log2 + 1) := Nat.lt_log2_self
+        have hb : NTV.Elem.bits N = N.log2 + 1 := by simp [NTV.Elem.bits]; omega
+        have : 2 ^ (N.log2 + 1) ≤ 2 ^ k' := Nat.pow_le_pow_right (by norm_num) (by omega)
+        omega
 
 end NTV.C19
